@@ -9,6 +9,7 @@ package main
 // (abstract value -> bytes) and projection (response -> abstract observation).
 
 import (
+	"crypto/tls"
 	"crypto/rand"
 	"crypto/sha1"
 	"encoding/pem"
@@ -669,6 +670,8 @@ type vpReq struct {
 	Cookie     string      // raw Cookie header ("" => none)
 	Body       string
 	Form       bool // body is a form
+	Chunked    bool // send the body with Transfer-Encoding: chunked (no Content-Length)
+	TLS        bool // the request arrived over TLS (origin-form request line, req.TLS set)
 }
 
 type vpResp struct {
@@ -718,11 +721,26 @@ func (w *vpWorld) do(r vpReq) (out *vpResp) {
 	if r.Cookie != "" {
 		sb.WriteString("Cookie: " + r.Cookie + "\r\n")
 	}
-	if r.Body != "" {
-		sb.WriteString(fmt.Sprintf("Content-Length: %d\r\n", len(r.Body)))
+	if r.Body != "" && r.Chunked {
+		sb.WriteString("Transfer-Encoding: chunked\r\n\r\n")
+		for rest := r.Body; len(rest) > 0; {
+			n := 8000
+			if n > len(rest) {
+				n = len(rest)
+			}
+			sb.WriteString(fmt.Sprintf("%x\r\n", n))
+			sb.WriteString(rest[:n])
+			sb.WriteString("\r\n")
+			rest = rest[n:]
+		}
+		sb.WriteString("0\r\n\r\n")
+	} else {
+		if r.Body != "" {
+			sb.WriteString(fmt.Sprintf("Content-Length: %d\r\n", len(r.Body)))
+		}
+		sb.WriteString("\r\n")
+		sb.WriteString(r.Body)
 	}
-	sb.WriteString("\r\n")
-	sb.WriteString(r.Body)
 	req, err := http.ReadRequest(bufioReader(sb.String()))
 	if err != nil {
 		return &vpResp{Status: -1, Header: http.Header{}, Body: []byte("vp: cannot build request: " + err.Error())}
@@ -730,6 +748,9 @@ func (w *vpWorld) do(r vpReq) (out *vpResp) {
 	req.RemoteAddr = r.RemoteAddr
 	if r.Scheme != "" {
 		req.URL.Scheme = r.Scheme
+	}
+	if r.TLS {
+		req.TLS = &tls.ConnectionState{Version: tls.VersionTLS13, HandshakeComplete: true}
 	}
 	before := w.upstreamTotal()
 	rec := httptest.NewRecorder()
